@@ -307,6 +307,18 @@ def run(rep: common.Report, tier: str, seed: int, replay=None) -> int:
         snap = [p.points.copy() for p in dev.polygons]
         pp = None if dev.probe_points is None else dev.probe_points.copy()
         sites0 = None if dev.mesh is None else np.array(dev.mesh.sites, copy=True)
+        import dataclasses as _dc
+        lay0 = {k_: getattr(dev.layer, k_) for k_ in ("coherence_length", "london_lambda", "thickness", "z0", "gamma", "u", "conductivity")}
+        dz_copy = dev.translate(0.2, 0.1, dz=0.7)                       # a non-in-place move along z as well
+        dcp = dev.copy()
+        dcp.layer.z0 = dcp.layer.z0 + 3.0
+        dcp.layer.london_lambda = dcp.layer.london_lambda * 2
+        if {k_: getattr(dev.layer, k_) for k_ in lay0} != lay0:
+            rep.violation("a non-in-place Device.translate(dz=...) or a change of a copy's layer changed the ORIGINAL device's layer "
+                          "(copies share the Layer object)", {"device": di, "before": {k_: str(v_) for k_, v_ in lay0.items()},
+                                                             "after": {k_: str(getattr(dev.layer, k_)) for k_ in lay0}})
+        if abs(dz_copy.layer.z0 - (lay0["z0"] + 0.7)) > 1e-12:
+            rep.violation("Device.translate(dz=...) did not move the copy along z", {"device": di})
         d2 = dev.scale(xfact=-1.5, yfact=2.0)
         d3 = dev.rotate(33.0, origin=(0.5, -0.5))
         d4 = dev.translate(1.0, -2.0)
